@@ -36,6 +36,7 @@ func (e *Engine) verifyFunc(name string) (*FuncResult, error) {
 	t0 := time.Now()
 	r := newRun(e, fn)
 	fr := r.newFrame(fn, nil)
+	r.topFrame = fr
 	st := newState()
 	// global axioms
 	r.assertAxioms()
@@ -154,8 +155,29 @@ func solveAll(workDir string, frs []*FuncResult, timeoutS int, jobs int) {
 				file := filepath.Join(workDir, fmt.Sprintf("o%04d.smt2", j.id))
 				o.File = file
 				writeQuery(file, j.fr.Facts[:o.NFacts], "(assert "+o.Pc+")", "(assert (not "+o.Goal+"))", "(check-sat)")
-				res := solveFile(file, timeoutS, false)
+				var res SolverResult
+				if strings.HasSuffix(o.Name, "!finding") {
+					// "is the known finding still there?": a quick look is enough, no answer means still there
+					res = runSolver("z3-new", file, 3)
+				} else {
+					res = solveFile(file, timeoutS, false)
+				}
 				o.Result = &res
+				if res.Status != "unsat" && res.Status != "sat" && o.Kind != "vacuity" && !strings.HasSuffix(o.Name, "!finding") {
+					// candidate counterexample: drop the quantified facts (weaker hypotheses) and ask for a model
+					var qf []string
+					for _, l := range j.fr.Facts[:o.NFacts] {
+						if !strings.Contains(l, "(forall ") && !strings.Contains(l, "(exists ") {
+							qf = append(qf, l)
+						}
+					}
+					cfile := strings.TrimSuffix(file, ".smt2") + ".cand.smt2"
+					writeQueryQF(cfile, qf, "(assert "+o.Pc+")", "(assert (not "+o.Goal+"))", "(check-sat)", "(get-model)")
+					r2 := runSolver("z3-new", cfile, 5)
+					if r2.Status == "sat" {
+						o.Candidate = r2.Model
+					}
+				}
 				if res.Status == "sat" {
 					// rerun with model
 					writeQuery(file, j.fr.Facts[:o.NFacts], "(assert "+o.Pc+")", "(assert (not "+o.Goal+"))", "(check-sat)", "(get-model)")
